@@ -294,3 +294,29 @@ for _id, (_t, _l) in ROUND10.items():
         if _t:
             t = t + " + " + _t
         CLAIMED[_id] = (t, text + _l, note, ref)
+
+ROUND11 = {
+ "C01": ("must-pass-through rule for scoring, append-under-absent-key rule, no-narrow-arithmetic rule", " R01.11: between the loops over the proposed ranges and the call of score stand only the loops and trace tests. R01.12: a list kept under a map key is not extended only where the key is absent. R01.13: no addition, subtraction or multiplication in an 8- or 16-bit integer type. Shared R11.15 and R10.12."),
+ "C02": ("", " Shared R08.4/R08.5/R08.8, R08.11 and R06.1."),
+ "C03": ("", " R03.15 follows a helper that returns the line."),
+ "C04": ("", " Shared R01.11."),
+ "C05": ("", " Shared R08.11."),
+ "C06": ("every-candidate-reaches-its-verdict rule, position-guard rule for the notice patterns", " R06.21: the use of a candidate's verdict dominates every way back to the head of the loop over the candidates. R06.22: the line-anchored notice patterns are applied only behind a test of the position of the buffer's first word (fails on the pinned tree, known finding D56). Shared R11.10."),
+ "C08": ("tokenize-before-return rule, reader-decides-exit rule", " R08.10: the call of tokenizeStream dominates every return of match. R08.11: every way out of the loop around the window read stands directly behind a test of the read's error."),
+ "C09": ("", " The effect analysis carries the provenance of a struct that is stored as a whole into its reference fields (a value receiver spilled to a local still holds the caller's map)."),
+ "C10": ("guarded-index rule for tables of lists", " R10.14: a [][]T allocated with a length is indexed by a computed position only behind a test of it. Shared R04.1."),
+ "C11": ("", " R11.4 also covers every character the number path keeps that header() takes for the end of a marker. R11.10 requires the test of the cleaned line for every line (no constant on some path, no other condition). Shared R10.12."),
+ "C12": ("no-carried-state rule for the walk callback", " R12.15: the walk callback assigns no captured variable but the list it appends to."),
+ "C13": ("", " R13.7 also reads a recorded end field."),
+ "C15": ("whole-list rule, header-format rule", " R15.22: the loop over the list of files is left only at its end or with an error. R15.23: no tar header is pinned to USTAR."),
+ "C16": ("", " R16.1 follows the helper that builds the list and a boolean helper that accepts an element only within the threshold."),
+ "C17": ("pending-word-first rule", " R17.12: a token that is built and appended in one step is appended behind the test for a pending word."),
+ "C18": ("tested-bound rule for string slices, RuneLen pitfall rule, carriage-return rule", " R18.25: the input is sliced up to a computed bound only behind a test of that bound. R18.26: utf8.RuneLen is not applied to a rune that came out of a decoder. R18.27: the text of a single-line comment is recorded through a trim of the carriage return (D55)."),
+ "C20": ("chosen-operand rule", " R20.16: a map that is ranged over or probed is an operand's map on every path (no nil edge). R20.8 also reports an ordering function that compares the results of a call instead of the elements."),
+}
+for _id, (_t, _l) in ROUND11.items():
+    if _id in CLAIMED:
+        t, text, note, ref = CLAIMED[_id]
+        if _t:
+            t = t + " + " + _t
+        CLAIMED[_id] = (t, text + _l, note, ref)
